@@ -4,6 +4,7 @@ import (
 	"crypto/rand"
 	"fmt"
 	"sync"
+	"time"
 
 	"github.com/privacybydesign/gabi"
 	"github.com/privacybydesign/gabi/big"
@@ -73,7 +74,11 @@ func init() {
 	}
 	executors["primesqrt"] = func(o Op) string {
 		a, p := unhx(o["a"]), unhx(o["p"])
-		r, ok := gabi.VerifPrimeSqrt(new(big.Int).Set(a), new(big.Int).Set(p))
+		var r *big.Int
+		var ok bool
+		if !returnsWithin(10*time.Second, func() { r, ok = gabi.VerifPrimeSqrt(new(big.Int).Set(a), new(big.Int).Set(p)) }) {
+			return "diverges"
+		}
 		if !ok {
 			return "none"
 		}
@@ -91,7 +96,11 @@ func init() {
 		for _, f := range fs {
 			n.Mul(n, f)
 		}
-		r, ok := gabi.VerifModSqrt(new(big.Int).Set(a), fs)
+		var r *big.Int
+		var ok bool
+		if !returnsWithin(10*time.Second, func() { r, ok = gabi.VerifModSqrt(new(big.Int).Set(a), fs) }) {
+			return "diverges"
+		}
 		if !ok {
 			return "none"
 		}
@@ -258,7 +267,8 @@ func genC19(g *Rng, tier string, emit func(Op)) {
 	for _, p := range primes {
 		for a := -2; a < p+3; a++ {
 			emit(Op{"ref": true, "op": "legendre", "class": "exh-prime", "a": hxi(int64(a)), "p": hxi(int64(p))})
-			if a >= 0 && a < p && p > 2 {
+			if a >= 0 && a < p+3 {
+				// (the prime 2 included since a4f5330: before, PrimeSqrt(1, 2) never returned)
 				emit(Op{"op": "primesqrt", "class": "exh-prime", "a": hxi(int64(a)), "p": hxi(int64(p))})
 			}
 			if a >= 0 {
@@ -292,6 +302,8 @@ func genC19(g *Rng, tier string, emit func(Op)) {
 		emit(Op{"op": "modsqrt", "label": "root|none", "class": "exh4", "a": hxi(int64(a)), "factors": hxs([]*big.Int{bi(4), bi(5), bi(13)})})
 		emit(Op{"op": "modsqrt", "label": "root|none", "class": "exh4", "a": hxi(int64(a)), "factors": hxs([]*big.Int{bi(4), bi(7)})})
 		emit(Op{"op": "modsqrt", "label": "root|none", "class": "exh", "a": hxi(int64(a)), "factors": hxs([]*big.Int{bi(3), bi(11)})})
+		emit(Op{"op": "modsqrt", "label": "root|none", "class": "exh-with-2", "fkey": "C19/prime-two", "a": hxi(int64(a)), "factors": hxs([]*big.Int{bi(2), bi(5)})})
+		emit(Op{"op": "modsqrt", "label": "root|none", "class": "exh-with-2", "fkey": "C19/prime-two", "a": hxi(int64(a)), "factors": hxs([]*big.Int{bi(2), bi(3), bi(7)})})
 	}
 	// crt small exhaustive
 	for pa := 1; pa < 14; pa++ {
@@ -299,7 +311,7 @@ func genC19(g *Rng, tier string, emit func(Op)) {
 			emit(Op{"ref": true, "op": "crt", "class": "exh", "a": hxi(int64(g.intn(pa))), "pa": hxi(int64(pa)), "b": hxi(int64(g.intn(pb))), "pb": hxi(int64(pb))})
 			emit(Op{"ref": true, "op": "crt", "class": "exh-unreduced", "fkey": "C19/crt-unreduced", "a": hxi(int64(g.intn(pa) + pa*(1+g.intn(4)))), "pa": hxi(int64(pa)), "b": hxi(int64(g.intn(pb))), "pb": hxi(int64(pb))})
 			emit(Op{"ref": true, "op": "crt", "class": "exh-unreduced", "fkey": "C19/crt-unreduced", "a": hxi(int64(g.intn(pa))), "pa": hxi(int64(pa)), "b": hxi(int64(g.intn(pb) + pb*(1+g.intn(4)))), "pb": hxi(int64(pb))})
-			emit(Op{"ref": true, "op": "crt", "class": "exh-negative", "fkey": "C19/crt-unreduced", "a": hxi(-int64(g.intn(3*pa))), "pa": hxi(int64(pa)), "b": hxi(-int64(g.intn(3*pb))), "pb": hxi(int64(pb))})
+			emit(Op{"ref": true, "op": "crt", "class": "exh-negative", "fkey": "C19/crt-unreduced", "a": hxi(-int64(g.intn(3 * pa))), "pa": hxi(int64(pa)), "b": hxi(-int64(g.intn(3 * pb))), "pb": hxi(int64(pb))})
 		}
 	}
 	// random large operands
@@ -510,4 +522,20 @@ func emitHelpersConcurrent(g *Rng, thorough bool, emit func(Op)) {
 		rounds = 3000
 	}
 	emit(Op{"op": "helpers-concurrent", "class": "helpers-concurrent", "label": "ok", "nomodel": true, "calls": calls, "rounds": rounds, "goroutines": 16})
+}
+
+// returnsWithin runs f and reports whether it returned in time (a call that never returns keeps
+// its goroutine; the process is short-lived).
+func returnsWithin(d time.Duration, f func()) bool {
+	done := make(chan struct{})
+	go func() {
+		defer func() { recover(); close(done) }()
+		f()
+	}()
+	select {
+	case <-done:
+		return true
+	case <-time.After(d):
+		return false
+	}
 }
